@@ -226,7 +226,9 @@ impl C13 {
         res
     }
 
-    fn deposit_checks(&mut self, c: &mut SimCore, pre: &Obs, sender: &str, pool_id: &str, tol: &Option<Decimal>, funds: &[Coin]) -> MResult {
+    /// `lock`: the same predicates with the minted LP locked in the farm manager (the tolerance applies
+    /// whatever happens to the LP afterwards)
+    fn deposit_checks(&mut self, c: &mut SimCore, pre: &Obs, sender: &str, pool_id: &str, tol: &Option<Decimal>, funds: &[Coin], lock: Option<u64>) -> MResult {
         let p = match pre.pool(pool_id) {
             Some(p) => p.pool_info.clone(),
             None => return Ok(()),
@@ -250,7 +252,7 @@ impl C13 {
                         swap_max_slippage: Some(dec("0.5")),
                         receiver: None,
                         pool_identifier: pool_id.to_string(),
-                        unlocking_duration: None,
+                        unlocking_duration: lock,
                         lock_position_identifier: None,
                     },
                     funds: funds.to_vec(),
@@ -452,8 +454,17 @@ impl Monitor for C13 {
                     }
                 }
             }
-            PmMsg::ProvideLiquidity { liquidity_max_slippage, pool_identifier, .. } => {
-                self.deposit_checks(c, pre, sender, pool_identifier, liquidity_max_slippage, funds)?;
+            PmMsg::ProvideLiquidity { liquidity_max_slippage, pool_identifier, unlocking_duration, .. } => {
+                self.deposit_checks(c, pre, sender, pool_identifier, liquidity_max_slippage, funds, None)?;
+                if unlocking_duration.is_some() || c.step_no % 3 == 0 {
+                    let d = c.w.fm_config().min_unlocking_duration;
+                    // (the per-user limit of open positions would refuse the lock for its own reasons)
+                    let open = pre.positions.iter().filter(|p| p.open && p.receiver.as_str() == sender.as_str()).count();
+                    if open < 9 {
+                        c.stats.bump("probe.c13.deposit_checks_with_lock");
+                        self.deposit_checks(c, pre, sender, pool_identifier, liquidity_max_slippage, funds, Some(d))?;
+                    }
+                }
             }
             _ => {}
         }
